@@ -28,7 +28,9 @@ def build_harness(chk, scratch):
 
 
 def build_scn(chk, scratch, shard, trim):
-    d = os.path.join(scratch, "scn%d" % shard, "mod")
+    # the checkout directory of the scenario module: odd shards live in a directory whose name holds '%' and a blank
+    # (Jenkins multibranch workspaces `feature%2Flogin`, folders like `My%20Project`, `Program Files`)
+    d = os.path.join(scratch, "scn%d" % shard, "mod" if shard % 2 == 0 else "m%2Fd %d w")
     pkgs = bbscn.write_scn(d, chk.REPO)
     os.makedirs(os.path.join(d, "bin"), exist_ok=True)
     names = {".": "root", "sub": "sub", "sub/deep/er": "er"}
